@@ -504,6 +504,13 @@ func TestC05(t *testing.T) {
 						c.When = rapid.IntRange(1, total).Draw(rt, "when")
 						runCase(&c, "source:c-strace-"+sc)
 					}
+					// the very first writes / syncs happen while Open initialises the file: a kill there
+					// must leave a directory that opens (empty) again
+					for w := 1; w <= 3 && w <= total; w++ {
+						c := *base
+						c.When = w
+						runCase(&c, "source:c-strace-"+sc, "kill-during-open")
+					}
 				}
 			}
 			for j := 0; j < ev.Scale(3, 12); j++ {
